@@ -4,8 +4,23 @@ from fam_generic import Family, run_family
 DEVS = '{"RgPt", "BwRev", "BwOrigin", "WrapSlice", "RepairCp", "RepairJn"}'
 
 
-def ST(maxstream, stride):
-    return dict(consts=dict(MaxStream=maxstream, Stride=stride, Offset=0), mc=False)
+ALL_CMDS = ["reverse", "complement", "repair", "clear", "length", "join", "sort", "pick", "select", "define", "annotate", "search"]
+
+
+def ST(maxstream, stride, cmds=None):
+    return dict(consts=dict(MaxStream=maxstream, Stride=stride, Offset=0, CmdSet=list(cmds or ALL_CMDS)), mc=False)
+
+
+def stream_family(name, cmds, quick=(2, 1), thorough=(3, 1)):
+    """The record-stream family restricted to some commands (used by the property checks whose statements name
+    the output of those commands)."""
+    return Family(
+        name, "MC_Stream", "Trace_Stream", "cli", devs=DEVS, invariant=None, needs_gts=True, case_fam="stream",
+        rounds={"quick": [ST(quick[0], quick[1], cmds)], "thorough": [ST(thorough[0], thorough[1], cmds)]},
+        rule_text=("command-line clause (gts %s): every stream of 0..MaxStream distinct records out of four x the command's "
+                   "option sets; the gts binary built from the tree is run; inputs as the command reads them and outputs are "
+                   "parsed and judged by Stream!JudgeStream (library steps through the workspace machine)" % " / ".join(cmds)),
+        assumptions=["selector values are pairwise non-substrings, so 'the regexp matches' coincides with 'equals'"])
 
 
 FAM = Family(
